@@ -35,7 +35,7 @@ MUTANTS = [
      "            rejections += loop_rejections;\n            kt *= self.kt_ratio;",
      "            rejections += loop_rejections;"),
     ("C18", "ratio-not-subtracted", "src/optimisation.rs",
-     "(Some(ratio), _) => 1. - ratio,", "(Some(ratio), _) => ratio,"),
+     "(Some(ratio), _) => f64::max(1. - ratio, 0.),", "(Some(ratio), _) => f64::max(ratio, 0.),"),
     ("C18", "exponent-steps-again", "src/optimisation.rs",
      "1. / cooling_steps as f64", "1. / self.steps as f64"),
     ("C19", "no-cap", "src/optimisation.rs",
@@ -140,6 +140,7 @@ def main():
             src = open(path).read()
             if old not in src:
                 results.append((pid, name, "STALE (pattern not found)"))
+                print(pid, name, "STALE (pattern not found)", flush=True)
                 continue
             open(path, "w").write(src.replace(old, new, 1))
             t0 = time.time()
